@@ -208,6 +208,17 @@ class StoreAnalysis(object):
             return TOP
         if isinstance(e, ast.Attribute) and e.attr == 'buffer':
             return self.content_value('_buffer', st)
+        if isinstance(e, ast.BinOp) and isinstance(e.op, ast.Add):
+            # <a suffix of the text so far> + <a whole chunk>  is a suffix of  <text so far> ++ <chunk>
+            a, b = self.absval(e.left, st), self.absval(e.right, st)
+            if b[0] == 'SYM':
+                if a[0] == 'S':
+                    return ('S', tuple(a[1]) + (b[1],))
+                if a[0] == 'X' and a[1] == ():
+                    return ('S', ('*', b[1]))
+                if a[0] == 'SYM':
+                    return ('S', ('*', a[1], b[1]))
+            return TOP
         if isinstance(e, ast.Subscript) and isinstance(e.slice, ast.Slice):
             s = e.slice
             base = self.absval(e.value, st)
@@ -406,6 +417,9 @@ class StoreAnalysis(object):
                     elif v[0] == 'S' and st.bexact is not None and v[1] and v[1][0] == '*' \
                             and tuple_suffix(tuple(v[1][1:]), st.bexact):
                         pass
+                    elif v[0] == 'SYM' and ((st.bfull is not None and tuple_suffix((v[1],), tuple(st.bfull))) or
+                                            (st.bexact is not None and tuple_suffix((v[1],), tuple(st.bexact)))):
+                        pass        # the chunk just appended, whole: a suffix of the pending text
                     else:
                         ok = False
                         why = ('window argument %s is not known to be a suffix of the pending text '
